@@ -2,7 +2,7 @@ SPECIFICATION Spec
 CONSTANTS
   AtomChoice = "all"
   MaxLen = 2
-  SepChoice = "all"
+  SepChoice = "basic"
   EmitMin = 1
   WithFinal = TRUE
 INVARIANTS RefAgrees Tight
